@@ -1,6 +1,6 @@
 (* C10 - Every prefix of the output is a consistent truncated minidump.   Property theorems only. *)
 From Coq Require Import List NArith Arith.
-From MDW Require Import Bytes DirSection DirSectionProofs Prefix DirTrace TraceProofs.
+From MDW Require Import Bytes DirSection DirSectionProofs Prefix DirTrace TraceProofs TraceSeqProofs.
 Import ListNotations.
 Local Open Scope nat_scope.
 
@@ -44,6 +44,28 @@ Theorem C10_entry : forall r sec n idx e,
   consistent (update r (sec + 12 * idx) e) sec n.
 Proof. exact consistent_entry. Qed.
 Print Assumptions C10_entry.
+
+(* Lifted to operation sequences of ANY length from any state satisfying the invariant: after every
+   destination call of the whole sequence the region is a consistent truncated minidump.  [valid] is the
+   writers' grammar: entries are 12 bytes, at most index_length of them, each naming data inside the image
+   built so far. *)
+Theorem C10_sequence_prefixes : forall pre ops buf s d,
+  Good pre (buf, s, d) -> valid (length buf) (ds_n s - ds_idx s) ops ->
+  Good pre (fst (drun false (buf, s, d) ops)) /\
+  Forall (fun d' => consistent (region pre d') (ds_sec s) (ds_n s)) (snd (drun false (buf, s, d) ops)).
+Proof. exact sequence_prefixes. Qed.
+Print Assumptions C10_sequence_prefixes.
+
+(* ... and from the very beginning of the protocol (header bytes, zeroed directory of n entries, first flush),
+   into a destination that is empty beyond its starting position: every prefix of the output - from the first
+   completed write on - has the header and the whole directory, and every entry is unused or complete. *)
+Theorem C10_protocol_prefixes : forall pre buf0 n ops,
+  valid (length buf0 + 12 * n) n ops ->
+  let d0 := {| d_bytes := pre; d_pos := length pre |} in
+  let r := drun false (dstart buf0 n d0) (DFlush None :: ops) in
+  Forall (fun d' => consistent (region pre d') (length buf0) n) (snd r).
+Proof. exact protocol_prefixes. Qed.
+Print Assumptions C10_protocol_prefixes.
 
 (* The entry-before-data order (the code before the repair) is refuted: after the entry is written
    the destination is 44 bytes long and names a stream that ends at byte 144. *)
